@@ -32,9 +32,19 @@ impl Parse for TypeWithPunctuatedMeta {
     }
 }
 
+/// Parentheses and the invisible group around a `$t:ty` fragment of `macro_rules!` do not change what a type is.
+#[inline]
+pub(crate) fn ungroup(ty: &Type) -> &Type {
+    match ty {
+        Type::Group(ty) => ungroup(ty.elem.as_ref()),
+        Type::Paren(ty) => ungroup(ty.elem.as_ref()),
+        _ => ty,
+    }
+}
+
 #[inline]
 pub(crate) fn dereference(ty: &Type) -> &Type {
-    if let Type::Reference(ty) = ty {
+    if let Type::Reference(ty) = ungroup(ty) {
         dereference(ty.elem.as_ref())
     } else {
         ty
@@ -43,7 +53,7 @@ pub(crate) fn dereference(ty: &Type) -> &Type {
 
 #[inline]
 pub(crate) fn dereference_changed(ty: &Type) -> (&Type, bool) {
-    if let Type::Reference(ty) = ty {
+    if let Type::Reference(ty) = ungroup(ty) {
         (dereference(ty.elem.as_ref()), true)
     } else {
         (ty, false)
